@@ -723,6 +723,9 @@ func rulesC20(w *World, r *Report) {
 		}
 		r.Check(guarded, "C20.R3", "generate:fill-flag", w.instrPos(upd), "data is written only under Fill", "points are written even without the Fill flag (or never): 'without fill every slot is empty' / 'with fill every slot holds a value' no longer follows the flag")
 		ue := callArgExprs(w, upd)
+		for len(ue) < 3 {
+			ue = append(ue, "<missing>")
+		}
 		okArgs := strings.HasSuffix(ue[0], "#0") && strings.HasPrefix(ue[0], "whispertool.Create(") &&
 			regexp.MustCompile(`^cmd\.randomPointsList\(p0\.ArchiveInfoList, math/rand\.New\(.*\), p0\.RandMax, whispertool\.TimestampFromStdTime\(time\.Now\(\)\), whispertool\.TimestampFromStdTime\(time\.Now\(\)\)\)$`).MatchString(ue[1]) &&
 			ue[2] == "whispertool.TimestampFromStdTime(time.Now())"
